@@ -1,8 +1,8 @@
 package rules
 
 import (
-	"go/types"
 	"go/token"
+	"go/types"
 	"strings"
 
 	"serfcheck/an"
@@ -12,9 +12,9 @@ import (
 
 func init() {
 	register(&Rule{
-		ID: "C13",
+		ID:      "C13",
 		Explain: "Decides the ordering and guard clauses that make a graceful leave survive restarts: Serf.Leave notifies the snapshotter (when one exists) before the leave is applied or broadcast; the snapshotter's leave case sets leaving, clears the alive set exactly on the !rejoinAfterLeave edge BEFORE appending the leave record (a compaction inside that append serialises the in-memory set), then flushes and syncs; all recorders are behind !leaving; the alive set has a closed list of writers; replay resets state on a leave line exactly when rejoin-after-leave is off; compaction serialises the in-memory alive set. Events racing the leave notification in the channel are not covered.",
-		Run: runC13,
+		Run:     runC13,
 		Mutants: []Mutant{
 			{Name: "clear-after-append", File: "serf/snapshot.go", Func: "func (s *Snapshotter) stream(", Old: "\t\t\tif !s.rejoinAfterLeave {\n\t\t\t\ts.aliveNodes = make(map[string]string)\n\t\t\t}\n\t\t\ts.tryAppend(\"leave\\n\")\n", New: "\t\t\ts.tryAppend(\"leave\\n\")\n\t\t\tif !s.rejoinAfterLeave {\n\t\t\t\ts.aliveNodes = make(map[string]string)\n\t\t\t}\n", Expect: "R2"},
 			{Name: "no-sync-after-leave", File: "serf/snapshot.go", Func: "func (s *Snapshotter) stream(", Old: "\t\t\tif err := s.fh.Sync(); err != nil {\n\t\t\t\ts.logger.Printf(\"[ERR] serf: failed to sync leave to snapshot: %v\", err)\n\t\t\t}\n", New: "", Expect: "R2"},
@@ -26,9 +26,9 @@ func init() {
 		},
 	})
 	register(&Rule{
-		ID: "C15",
+		ID:      "C15",
 		Explain: "Decides the bookkeeping invariant structurally on every path that changes a member's status: storing Failed/Left is paired with an append to the matching list; leaving Failed/Left is paired with removal from the matching list unless an edge establishes the old status was different; all under the memberLock write section; the lists and the member map have a closed set of writers; eraseNode deletes the map entry and emits exactly one reap event, and its callers removed the member from its list first; Stats reports len() of the two lists under the lock; the reap scan visits each element once, uses strict '>' against the configured timeout as adjusted per member from the configured base. Wall-clock behaviour is not covered.",
-		Run: runC15,
+		Run:     runC15,
 		Mutants: []Mutant{
 			{Name: "rename-locals", Equivalent: true, Regexp: true, File: "serf/serf.go", Func: "func (s *Serf) reap(", Old: `\b(n|m|memberTimeout)\b`, New: "${1}Renamed"},
 			{Name: "failed-not-listed", File: "serf/serf.go", Func: "func (s *Serf) handleNodeLeave(", Old: "\t\ts.failedMembers = append(s.failedMembers, member)\n", New: "", Expect: "R1"},
@@ -44,9 +44,9 @@ func init() {
 		},
 	})
 	register(&Rule{
-		ID: "C16",
+		ID:      "C16",
 		Explain: "Decides the structural half of per-member event order: every MemberEvent handed to the pipeline is sent by a blocking send while the memberLock write section that made the status change is still held (so sends for one member are serialised in status-change order), and every pipeline stage (snapshot tee, internal-query stage, coalesce loop) is a single goroutine per channel that forwards in the same goroutine that received, never through a spawned goroutine or deferred closure. With FIFO channels this yields an in-order subsequence. Coalescer per-member uniqueness is C17's.",
-		Run: runC16,
+		Run:     runC16,
 		Mutants: []Mutant{
 			{Name: "stage-keeps-backlog", File: "serf/internal_query.go", Func: "func (s *serfQueries) stream(", Old: "\t\t\t\ts.outCh <- e\n", New: "\t\t\t\tbacklog = append(backlog, e)\n\t\t\t\ts.outCh <- backlog[0]\n\t\t\t\tbacklog = backlog[1:]\n", Old2: "func (s *serfQueries) stream() {\n", New2: "func (s *serfQueries) stream() {\n\tvar backlog []Event\n", Expect: "R2|(*serfQueries).stream"},
 			{Name: "send-after-unlock", File: "serf/serf.go", Func: "func (s *Serf) handleNodeUpdate(", Old: "\ts.memberLock.Lock()\n\tdefer s.memberLock.Unlock()\n", New: "\ts.memberLock.Lock()\n\ts.memberLock.Unlock()\n", Expect: "R1"},
